@@ -144,6 +144,48 @@ def comment_cases():
     return out
 
 
+MESSAGELESS = ["${plain()}", "% for zz in seq:\n${zz}\n% endfor".split("\n")[0], '<%def name="nomsg(a=1)">', "${title | h}"]
+
+
+def lingering_cases():
+    """a tagged comment in front of a construct without any message must not reach a later message, and an
+    untagged ## comment is never a translator comment"""
+    out = []
+    for ml in MESSAGELESS:
+        for untagged in (True, False):
+            for gap in (0, 1):
+                lines = ["## TRANSLATORS: for the construct below", ml]
+                if ml.startswith("<%def"):
+                    lines += ["x", "</%def>"]
+                if ml.startswith("% for"):
+                    lines += ["${zz}", "% endfor"][:1]            # keep the loop open: no '% end' line resets anything
+                lines += [""] * gap
+                if untagged:
+                    lines.append("## just a remark, no tag")
+                lines.append("${_('later-message')}")
+                if ml.startswith("% for"):
+                    lines.append("% endfor")
+                out.append((ml, untagged, gap, "\n".join(lines) + "\n"))
+    return out
+
+
+def run_lingering(case):
+    ml, untagged, gap, src = case
+    try:
+        got = babel_extract(src, comment_tags=["TRANSLATORS:"])
+    except Exception as e:
+        return {"construct": ml, "problem": "%s: %s" % (type(e).__name__, str(e)[:100]), "template": src}
+    by = {g["msg"]: g for g in got}
+    if "later-message" not in by:
+        return {"construct": ml, "problem": "message not extracted", "template": src}
+    c = by["later-message"]["comments"]
+    if any("remark" in x for x in c):
+        return {"construct": ml, "untagged": untagged, "gap": gap, "problem": "an untagged ## comment was attached as a translator comment: %r" % c, "template": src}
+    if any("construct below" in x for x in c):
+        return {"construct": ml, "untagged": untagged, "gap": gap, "problem": "a translator comment in front of another construct was attached: %r" % c, "template": src}
+    return None
+
+
 def run_comment(case):
     kind, gap, src, msg, later = case
     got = babel_extract(src, comment_tags=["TRANSLATORS:"])
